@@ -136,9 +136,24 @@ CHECKS['C07'] = {
                  'a reference interpreter',
 }
 
+CHECKS['C05'] = {
+    'text': 'Static validation decided on enumerated statement families with the expected verdict written from the '
+            'property (aggregate placement, GROUP BY coverage, name resolution, clause rules), positional references and '
+            'OPEN/CLOSE dates and parameter counts as symbolic values, literal token values (every YYYY-MM-DD text of '
+            'three years incl. invalid ones, oversized integers), and every token sequence of length <=2 after 16 clause '
+            'prefixes: each statement is accepted, or rejected with ParseError / CompilationError carrying a valid '
+            'location, and never fails with another exception.',
+    'design_ref': 'DESIGN.md section 5, C05',
+    'note': _COMMON_NOTE + ' The parser cannot be executed on symbolic text (TatSu regular-expression lexing), so '
+            'the text conditions are exhaustive native enumeration inside the stated vocabulary; the solver reasons '
+            'about positions, dates, names and counts.',
+    'technique': 'symbolic execution (CrossHair/z3) of compiler validation with symbolic positions / dates / names; '
+                 'bounded exhaustive enumeration of token sequences',
+}
+
 NOT_APPLICABLE = {
     pid: 'check under construction in this session; not claimed yet'
-    for pid in [ 'C04', 'C05', 'C06', 'C11', 'C12', 'C13',
+    for pid in [ 'C04', 'C06', 'C11', 'C12', 'C13',
                 'C14', 'C16', 'C17', 'C18', 'C19', 'C20']
 }
 
